@@ -53,3 +53,45 @@ Theorem C03_racing_writer_takes_one : forall c pa pb ack close,
   (let w := match t with TA => wa | _ => wb end in w_res (w s') = pre ++ [RReady] /\ w_res (w s) = pre) ->
   1 <= c2 s /\ c2 s' = c2 s - 1.
 Proof. exact racing_writer_takes_one. Qed.
+
+(* ---- the flow model is the projection of the endpoint model onto one flow (Mux/Project.v):
+   the endpoint's function acts on the stream object as the flow label does, returns the same
+   result and puts on the wire the frames the flow model puts in flight ---- *)
+From PV Require Import Mux.Sys Mux.Project.
+
+Theorem C03_write_projects : forall f sid data oid s y f' res y' o,
+  live_stream (f_ep f) sid = Some (oid, s) -> e_tx_closed (f_ep f) = false -> S_view y s ->
+  do_write f sid data = (f', res) -> F.step y (F.Write data) = (y', o) ->
+  res = enc_out o /\
+  exists s', get_stream (f_ep f') oid = Some s' /\ S_view y' s' /\ same_R s s' /\ st_id s' = st_id s /\
+  exists added, F.wsr y' = F.wsr y ++ added /\ f_out f' = f_out f ++ map (wire (st_id s)) added.
+Proof. exact write_projects. Qed.
+
+Theorem C03_acknowledge_projects : forall f id n wd oid s y r f' rr,
+  slot_get (e_slots (f_ep f)) id = Some (SEstablished oid) -> get_stream (f_ep f) oid = Some s ->
+  S_view y s -> F.sgone y = false -> F.wrs y = n :: r ->
+  process_frame f (Acknowledge id n) wd = (f', rr) ->
+  let y' := fst (F.step y F.DelRS) in
+  rr = RxContinue /\ F.wrs y' = r /\
+  exists s', get_stream (f_ep f') oid = Some s' /\ S_view y' s' /\ same_R s s' /\ st_id s' = st_id s /\
+    e_slots (f_ep f') = e_slots (f_ep f) /\ f_out f' = f_out f.
+Proof. exact acknowledge_projects. Qed.
+
+Theorem C03_push_projects : forall f id data wd oid s x y r f' rr,
+  slot_get (e_slots (f_ep f)) id = Some (SEstablished oid) -> get_stream (f_ep f) oid = Some s ->
+  e_tx_closed (f_ep f) = false ->
+  R_view x (e_rwnd (f_ep f)) s -> S_view y s -> F.wsr x = F.FPush data :: r ->
+  process_frame f (Push id data) wd = (f', rr) ->
+  let x' := fst (F.step x F.DelSR) in
+  let ov := st_txopen s && st_alive s && negb (len (st_rxq s) <? e_rwnd (f_ep f)) in
+  rr = RxContinue /\ F.wsr x' = r /\
+  exists s', get_stream (f_ep f') oid = Some s' /\ R_view x' (e_rwnd (f_ep f)) s' /\ st_id s' = st_id s /\
+   if ov then
+     (* the overrun closes the flow: the outgoing direction of the receiver is aborted *)
+     let y' := fst (F.step y F.AbortS) in
+     S_view y' s' /\ slot_get (e_slots (f_ep f')) id = None /\
+     exists added, F.wsr y' = F.wsr y ++ added /\ f_out f' = f_out f ++ map (wire id) added
+   else
+     same_S s s' /\ e_slots (f_ep f') = e_slots (f_ep f) /\
+     f_out f' = f_out f ++ (if st_txopen s then [] else [wire id F.FRst]).
+Proof. exact push_projects. Qed.
